@@ -8,10 +8,10 @@
   evaluated from scratch on the last `n` values of `replicate n v ++ xs.take (i+1)`.
 
   Proved here: SMA, WMA, windowed and cumulative Integral, Momentum, Derivative,
-  RateOfChange, Past, StDev (the variance under its square root), LinearVolatility, MeanAbsDev, CCI.  The remaining C02 methods (SWMA, TRIMA,
-  HMA, LinReg, Conv, VWMA, MedianAbsDev, windowed ADI) are at present covered by the
-  correspondence run only (Rust vs exact model *and* vs from-scratch spec on every step); see
-  the evidence file and DESIGN §5.
+  RateOfChange, Past, StDev (the variance under its square root), LinearVolatility, MeanAbsDev, CCI,
+  TRIMA, HMA, VWMA, windowed ADI, LinReg, Conv, MedianAbsDev, SWMA (length ≥ 2; length 1 returns its input) — every C02
+  method.  Independently of the theorems the correspondence run compares Rust with the exact model *and* the model with the
+  from-scratch spec on every generated step.
 -/
 import YataProofs.Numeric.SMA
 import YataProofs.Numeric.WMA
@@ -19,6 +19,11 @@ import YataProofs.Numeric.Simple
 import YataProofs.Numeric.StDev
 import YataProofs.Numeric.LinVol
 import YataProofs.Numeric.MeanAbsDev
+import YataProofs.Numeric.Composite
+import YataProofs.Numeric.LinReg
+import YataProofs.Numeric.Conv
+import YataProofs.Numeric.MedianAbsDev
+import YataProofs.Numeric.SWMA
 import Mathlib.Tactic.NormNum
 namespace Yata.C02
 open Yata
@@ -94,6 +99,56 @@ theorem C02_cci {P n : Nat} (v : K) (hn0 : 0 < n) (hn : n ≤ P - 1) (xs : List 
       outs.length = xs.length ∧ ∀ i (hi : i < outs.length), outs[i] = Spec.cci n v (xs.take (i + 1)) :=
   CCI.spec v hn0 hn xs
 
+/-- TRIMA: the simple average of the series of simple averages -/
+theorem C02_trima {P n : Nat} (v : K) (hn0 : 0 < n) (hn : n ≤ P - 1) (xs : List K) :
+    ∃ s0 outs s', TRIMA.new P n v = .ok s0 ∧ runM TRIMA.next s0 xs = .ok (outs, s') ∧
+      outs.length = xs.length ∧ ∀ i (hi : i < outs.length), outs[i] = Spec.trima n v (xs.take (i + 1)) :=
+  TRIMA.spec v hn0 hn xs
+
+/-- HMA: WMA(⌊√n⌋) of the series 2·WMA(n/2) − WMA(n) -/
+theorem C02_hma {P n : Nat} (v : K) (hn2 : 2 ≤ n) (hn : n ≤ P - 1) (xs : List K) :
+    ∃ s0 outs s', HMA.new P n v = .ok s0 ∧ runM HMA.next s0 xs = .ok (outs, s') ∧
+      outs.length = xs.length ∧ ∀ i (hi : i < outs.length), outs[i] = Spec.hma n v (xs.take (i + 1)) :=
+  HMA.spec v hn2 hn xs
+
+/-- VWMA: Σ price·volume / Σ volume over the last `n` pairs -/
+theorem C02_vwma {P n : Nat} (v : K × K) (hn0 : 0 < n) (hn : n ≤ P - 1) (xs : List (K × K)) :
+    ∃ s0 outs s', VWMA.new P n v = .ok s0 ∧ runM VWMA.next s0 xs = .ok (outs, s') ∧
+      outs.length = xs.length ∧ ∀ i (hi : i < outs.length), outs[i] = Spec.vwma n v (xs.take (i + 1)) :=
+  VWMA.spec v hn0 hn xs
+
+/-- windowed ADI: Σ CLV·volume over the last `n` candles -/
+theorem C02_adi_windowed {P n : Nat} (c0 : Candle K) (hn0 : 0 < n) (hn : n ≤ P - 1) (cs : List (Candle K)) :
+    ∃ s0 outs s', ADI.new P n c0 = .ok s0 ∧ runM ADI.next s0 cs = .ok (outs, s') ∧
+      outs.length = cs.length ∧
+      ∀ i (hi : i < outs.length),
+        outs[i] = ((lastN n (history n c0 (cs.take (i + 1)))).map fun c => c.clv * c.volume).sum :=
+  ADI.spec c0 hn0 hn cs
+
+/-- LinReg: the least-squares line through the last `n` values (abscissae −(n−1) … 0) at the newest abscissa -/
+theorem C02_linreg {P n : Nat} (v : K) (hn2 : 2 ≤ n) (hn : n ≤ P - 1) (xs : List K) :
+    ∃ s0 outs s', LinReg.new P n v = .ok s0 ∧ runM LinReg.next s0 xs = .ok (outs, s') ∧
+      outs.length = xs.length ∧ ∀ i (hi : i < outs.length), outs[i] = Spec.linreg n v (xs.take (i + 1)) :=
+  LinReg.spec v hn2 hn xs
+
+/-- Conv: Σ wᵢ·xᵢ / Σ wᵢ over the last `|w|` values, weights given oldest → newest -/
+theorem C02_conv {P : Nat} (ws : List K) (v : K) (h1 : 1 ≤ ws.length) (hn : ws.length ≤ P - 1) (xs : List K) :
+    ∃ s0 outs s', Conv.new P ws v = .ok s0 ∧ runM Conv.next s0 xs = .ok (outs, s') ∧
+      outs.length = xs.length ∧ ∀ i (hi : i < outs.length), outs[i] = Spec.conv ws v (xs.take (i + 1)) :=
+  Conv.spec ws v h1 hn xs
+
+/-- MedianAbsDev (total order of the representation = `total_cmp`): mean absolute deviation around the median -/
+theorem C02_median_abs_dev [TotalCmp K] [BitEq K] [TotalLike K] {P n : Nat} (v : K) (hn2 : 2 ≤ n) (hn : n ≤ P - 1) (xs : List K) :
+    ∃ s0 outs s', MedianAbsDev.new P n v = .ok s0 ∧ runM MedianAbsDev.next s0 xs = .ok (outs, s') ∧
+      outs.length = xs.length ∧ ∀ i (hi : i < outs.length), outs[i] = Spec.medianAbsDev n v (xs.take (i + 1)) :=
+  MedianAbsDev.spec v hn2 hn xs
+
+/-- SWMA (length ≥ 2): triangular weights min(i+1, n−i) over the last `n` values, normalised by their sum -/
+theorem C02_swma {P n : Nat} (v : K) (hn2 : 2 ≤ n) (hn : n ≤ P - 1) (xs : List K) :
+    ∃ s0 outs s', SWMA.new P n v = .ok s0 ∧ runM SWMA.next s0 xs = .ok (outs, s') ∧
+      outs.length = xs.length ∧ ∀ i (hi : i < outs.length), outs[i] = Spec.swma n v (xs.take (i + 1)) :=
+  SWMA.spec v hn2 hn xs
+
 /-- length 0 is rejected by every constructor that documents it (Integral accepts it: cumulative) -/
 theorem C02_zero_length_rejected {P : Nat} (v : K) :
     (∃ e, SMA.new P 0 v = .err e) ∧ (∃ e, WMA.new P 0 v = .err e) ∧ (∃ e, Momentum.new P 0 v = .err e) ∧
@@ -123,3 +178,11 @@ end Yata.C02
 #print axioms Yata.C02.C02_linear_volatility
 #print axioms Yata.C02.C02_mean_abs_dev
 #print axioms Yata.C02.C02_cci
+#print axioms Yata.C02.C02_trima
+#print axioms Yata.C02.C02_hma
+#print axioms Yata.C02.C02_vwma
+#print axioms Yata.C02.C02_adi_windowed
+#print axioms Yata.C02.C02_linreg
+#print axioms Yata.C02.C02_conv
+#print axioms Yata.C02.C02_median_abs_dev
+#print axioms Yata.C02.C02_swma
